@@ -386,6 +386,13 @@ class StmtMixin:
         t = ast.unparse(s.items[0].context_expr)
         if "catch_warnings" in t:
             return self.exec_block(s.body, st)
+        v0 = None
+        if len(s.items) == 1 and "rasterio_open" in t:
+            v0 = self.eval(s.items[0].context_expr, st)
+        if isinstance(v0, tuple) and v0 and isinstance(v0[0], str) and v0[0] in ("rasterwriter", "rasterfile"):
+            if s.items[0].optional_vars is not None:
+                self.assign_target(s.items[0].optional_vars, v0, st, s)
+            return self.exec_block(s.body, st)
         if hasattr(self, "glue") and self.glue():
             # orchestration code: the context manager is an opaque object (its construction is an event of the trace), bound to
             # the `as` name; __enter__/__exit__ are not modelled
